@@ -177,7 +177,8 @@ pub fn gen_config(r: &mut Rng, forced: Option<Ver>) -> Config {
 }
 
 fn gen_bytes(r: &mut Rng) -> Vec<u8> {
-    let n = match r.below(10) { 0 => 0, 1 => 15, 2 => 16, 3 => 17, 4 => 32, 5..=7 => r.usize(12), _ => r.usize(70) };
+    // one string in twenty is long (250..1100 bytes: past one period of the RC4 index bytes, many AES blocks)
+    let n = if r.chance(1, 20) { 250 + r.usize(850) } else { match r.below(10) { 0 => 0, 1 => 15, 2 => 16, 3 => 17, 4 => 32, 5..=7 => r.usize(12), _ => r.usize(70) } };
     if r.chance(1, 3) { (0..n).map(|_| b' ' + r.below(90) as u8).collect() } else { r.bytes(n) }
 }
 fn gen_string(r: &mut Rng) -> Object {
@@ -234,7 +235,7 @@ fn gen_stream(r: &mut Rng, o: &GenOpts) -> Object {
     }
     if o.stream_dict_strings && r.chance(1, 3) { d.set("Note", gen_string(r)); }
     if r.chance(1, 3) { d.set("K", Object::Integer(r.range(0, 9))); }
-    let content = match r.below(8) { 0 => vec![], 1 => r.bytes(16), 2 => r.bytes(15), _ => { let n = r.usize(200); r.bytes(n) } };
+    let content = match r.below(8) { 0 => vec![], 1 => r.bytes(16), 2 => r.bytes(15), 3 => { let n = 250 + r.usize(1500); r.bytes(n) } _ => { let n = r.usize(200); r.bytes(n) } };
     let mut s = Stream::new(d, content);
     if o.bad_length && r.chance(1, 4) {
         match r.below(3) { 0 => { s.dict.remove(b"Length"); } 1 => { s.dict.set("Length", Object::Integer(r.range(0, 500))); } _ => { s.dict.set("Length", Object::Reference((99, 0))); } }
